@@ -116,7 +116,7 @@ fn agree_spec(ctx: &Ctx) -> SeqSpec {
         world: Default::default(),
         prefix: vec![],
         alphabet: vec![put(1, 2), put_ttl(2, 2, 1500), put(3, 4), Op::Upsert { k: 1, value: true, w: None, ttl_ms: None, remove_ttl: false }, Op::Upsert { k: 2, value: true, w: None, ttl_ms: Some(3000), remove_ttl: false }, del(1), del(2), adv(2000), Op::TickWait, Op::ReadAll { keys: vec![1, 2, 3] }],
-        depth: if ctx.quick() { 5 } else { 7 },
+        depth: if ctx.quick() { 6 } else { 7 },
         allow: None,
         oracle: agree_oracle(),
         keys: vec![1, 2, 3],
